@@ -108,7 +108,7 @@ CHECKS = {
          "both private and public (decide over all pairs), the mainnet versions are the published BIP32/SLIP-132 ones, and the only mainnet ambiguity "
          "is single/multisig under the legacy versions. The harness exports every key (forced first/last bytes, leading zeros) in every representation "
          "and imports it back, compares WIF / extended-key strings with the Lean encoders and imported fields + metadata with the Lean decoders and "
-         "the candidate sets of the table. Decimal text, HD objects made from uncompressed keys, public keys whose text ends like a format marker, and exports before and after a network change of the object are included. Found and fixed: F21, F61 (78-digit decimal keys refused), F62 (xpub of an uncompressed HD object), F70 (under C11)."),
+         "the candidate sets of the table. The import decision for extended keys (xkeyImport: 78 bytes, version of the table, key field of the kind the version announces) is proved sound and complete with respect to the encoder and is what C11's mutants with a right checksum are compared with. Decimal text, HD objects made from uncompressed keys, public keys whose text ends like a format marker, and exports before and after a network change of the object are included. Found and fixed: F21, F61 (78-digit decimal keys refused), F62 (xpub of an uncompressed HD object), F70 (under C11)."),
    design_ref='DESIGN.md §5 C12',
    note=COMMON_NOTE + "hex/bytes 'secret+01' forms that start with 02/03/04 are classified public by construction (not self-describing; counted, not claimed). BIP38 export/import is covered under C15."),
  'C05': dict(
